@@ -7,7 +7,7 @@ for D in "$@"; do
   if ! git -C /repo diff --quiet; then echo "/repo dirty"; exit 3; fi
   git -C /repo apply "$D/patch.diff" || { echo "$D: patch does not apply"; continue; }
   /verif/bin/check run "$PROP" --tier quick > /tmp/recheck.$$ 2>&1; rc=$?
-  git -C /repo checkout -- .
+  git -C /repo checkout -- . && git -C /repo clean -fdq
   python3 - "$D/meta.json" "$rc" /tmp/recheck.$$ <<'PY'
 import json,sys
 p,rc,log=sys.argv[1:4]
